@@ -19,13 +19,23 @@ from harness.record import Recorder, inmem_projector, inmem_signature
 RECORDERS: list = []
 
 
+def _observe_all(h):
+    # every recorder whose broker is still in use (the last LIVE ones: one connection per test)
+    for rec in RECORDERS[-LIVE:]:
+        if not getattr(rec, "closed", False):
+            rec.observe(h)
+
+
+LIVE = 4
+
+
 class HookLoop(asyncio.SelectorEventLoop):
     """real-time selector loop that runs its ready handles one at a time and calls after_handle after each"""
 
     def __init__(self) -> None:
         super().__init__()
         self.steps = 0
-        self.after_handle = None
+        self.after_handle = _observe_all
         self.idle_hook = None
         self.set_task_factory(lambda loop, coro, **kw: asyncio.tasks._PyTask(coro, loop=loop, **kw))  # type: ignore[attr-defined]
 
@@ -71,19 +81,23 @@ def pytest_configure(config):
         orig_post(self)
         b = self.message_broker
         if isinstance(b, InMemoryMessageBroker) and not getattr(b, "_verif_recorded", False):
-            try:
-                loop = asyncio.get_event_loop()
-            except RuntimeError:
-                return
-            if not isinstance(loop, HookLoop):
-                return
             b._verif_recorded = True
             rec = Recorder(latency_us=None)
             rec.wrap_broker(b)
             rec.projectors.append(inmem_projector(b))
             rec.signatures.append(inmem_signature(b))
-            rec.install(loop)
             RECORDERS.append(rec)
+            orig_disc = b.disconnect
+
+            async def disconnect():
+                # the in-memory store ends with the connection: last observation, then stop observing
+                if not getattr(rec, "closed", False):
+                    try:
+                        rec.obs()
+                    finally:
+                        rec.closed = True
+                await orig_disc()
+            b.disconnect = disconnect
     rc.Connection.__post_init__ = post_init
 
 
@@ -95,10 +109,11 @@ def pytest_sessionfinish(session, exitstatus):
     for rec in RECORDERS:
         if sum(1 for e in rec.events if e["e"] == "move") == 0:
             continue
-        try:
-            rec.obs()
-        except Exception:  # noqa: BLE001
-            pass
+        if not getattr(rec, "closed", False):
+            try:
+                rec.obs()
+            except Exception:  # noqa: BLE001
+                pass
         traces.append(rec.trace(chk=["holder", "content"]))
     with open(out, "w") as f:
         json.dump(traces, f)
